@@ -238,7 +238,12 @@ pub fn search(args: &[String]) -> i32 {
             }
         }
     }
-    println!("c02 search: {count} random operation trees (sequences, nested branches, repeated conditions), no disagreement");
+    let programs = arg_u64(args, "--programs", 300);
+    if let Some(w) = search_src(args, seed, programs) {
+        write_out(args, &format!("kind: c02-source\nseed: {seed}\nprograms: {programs}\nobserved: {w}\n"));
+        return 3;
+    }
+    println!("c02 search: {count} random operation trees (sequences, nested branches, repeated conditions) through the builder and {programs} source programs x 30 inputs (failing operations in sequences, if conditions and branches, match arms, && / || operands) through the compiler, no disagreement");
     0
 }
 
@@ -259,4 +264,263 @@ pub fn replay(text: &str) -> i32 {
             3
         }
     }
+}
+
+// ------------------------------------------------------------------------------------------------
+// Source-level part: small Garble programs whose potentially failing operations sit in sequences, if / else
+// conditions and branches, match arms and short-circuit operands, compiled with the real compiler and compared
+// with a reference interpreter (u8 checked arithmetic, first failure in evaluation order, untaken code silent).
+
+#[derive(Clone, Debug)]
+enum Atom {
+    Var(usize), // index into the environment (0..3 = a, b, c; then v0, v1, ..)
+    Lit(u8),
+}
+
+#[derive(Clone, Debug)]
+struct Bin {
+    op: &'static str,
+    x: Atom,
+    y: Atom,
+}
+
+#[derive(Clone, Debug)]
+enum Cond {
+    Cmp(Atom, &'static str, Atom),
+    /// (x op y) cmp k  -- a failing operation inside the condition
+    OpCmp(Bin, &'static str, u8),
+}
+
+#[derive(Clone, Debug)]
+enum Stmt {
+    Arith(Bin),
+    Index(Atom),                   // [a, b, c, 7u8][(x % 5u8) as usize]
+    If(Cond, Bin, Bin),
+    Match(Atom, Bin, Bin, Bin),    // match x % 3u8 { 0 => .., 1 => .., _ => .. }
+    AndOr(bool, Cond, Cond, Bin, Bin), // if (c1 && c2) / (c1 || c2) { .. } else { .. }
+}
+
+fn atom_src(a: &Atom) -> String {
+    match a {
+        Atom::Var(0) => "a".into(),
+        Atom::Var(1) => "b".into(),
+        Atom::Var(2) => "c".into(),
+        Atom::Var(i) => format!("v{}", i - 3),
+        Atom::Lit(n) => format!("{n}u8"),
+    }
+}
+
+fn bin_src(b: &Bin) -> String {
+    format!("{} {} {}", atom_src(&b.x), b.op, atom_src(&b.y))
+}
+
+fn cond_src(c: &Cond) -> String {
+    match c {
+        Cond::Cmp(x, cmp, y) => format!("{} {} {}", atom_src(x), cmp, atom_src(y)),
+        Cond::OpCmp(b, cmp, k) => format!("{} {} {}u8", bin_src(b), cmp, k),
+    }
+}
+
+/// program text; every potentially failing operation is alone on its line, `lines` of a statement are recorded
+/// relative to the statement's first line
+fn stmt_src(s: &Stmt, k: usize) -> Vec<String> {
+    match s {
+        Stmt::Arith(b) => vec![format!("    let v{k} = {};", bin_src(b))],
+        Stmt::Index(x) => vec![format!("    let v{k} = [a, b, c, 7u8][({} % 5u8) as usize];", atom_src(x))],
+        Stmt::If(c, t, f) => vec![
+            format!("    let v{k} = if {} {{", cond_src(c)),
+            format!("        {}", bin_src(t)),
+            "    } else {".to_string(),
+            format!("        {}", bin_src(f)),
+            "    };".to_string(),
+        ],
+        Stmt::Match(x, e0, e1, e2) => vec![
+            format!("    let v{k} = match {} % 3u8 {{", atom_src(x)),
+            format!("        0u8 => {},", bin_src(e0)),
+            format!("        1u8 => {},", bin_src(e1)),
+            format!("        _ => {},", bin_src(e2)),
+            "    };".to_string(),
+        ],
+        Stmt::AndOr(and, c1, c2, t, f) => vec![
+            format!("    let v{k} = if ({})", cond_src(c1)),
+            format!("        {} ({}) {{", if *and { "&&" } else { "||" }, cond_src(c2)),
+            format!("        {}", bin_src(t)),
+            "    } else {".to_string(),
+            format!("        {}", bin_src(f)),
+            "    };".to_string(),
+        ],
+    }
+}
+
+fn atom_val(a: &Atom, env: &[u8]) -> u8 {
+    match a {
+        Atom::Var(i) => env[*i],
+        Atom::Lit(n) => *n,
+    }
+}
+
+/// Ok(value) or Err(reason code)
+fn bin_val(b: &Bin, env: &[u8]) -> Result<u8, u8> {
+    let (x, y) = (atom_val(&b.x, env), atom_val(&b.y, env));
+    match b.op {
+        "+" => x.checked_add(y).ok_or(1),
+        "-" => x.checked_sub(y).ok_or(1),
+        "*" => x.checked_mul(y).ok_or(1),
+        "/" => if y == 0 { Err(2) } else { Ok(x / y) },
+        "%" => if y == 0 { Err(2) } else { Ok(x % y) },
+        "<<" => if y >= 8 { Err(1) } else { Ok(x << y) },
+        ">>" => if y >= 8 { Err(1) } else { Ok(x >> y) },
+        _ => unreachable!(),
+    }
+}
+
+fn cmp(x: u8, c: &str, y: u8) -> bool {
+    match c {
+        "<" => x < y,
+        ">" => x > y,
+        "==" => x == y,
+        _ => x != y,
+    }
+}
+
+/// Err((reason, line offset inside the statement))
+fn cond_val(c: &Cond, env: &[u8], line: usize) -> Result<bool, (u8, usize)> {
+    match c {
+        Cond::Cmp(x, op, y) => Ok(cmp(atom_val(x, env), op, atom_val(y, env))),
+        Cond::OpCmp(b, op, k) => bin_val(b, env).map(|v| cmp(v, op, *k)).map_err(|r| (r, line)),
+    }
+}
+
+fn stmt_val(s: &Stmt, env: &[u8]) -> Result<u8, (u8, usize)> {
+    match s {
+        Stmt::Arith(b) => bin_val(b, env).map_err(|r| (r, 0)),
+        Stmt::Index(x) => {
+            let i = atom_val(x, env) % 5;
+            if i >= 4 { Err((3, 0)) } else { Ok([env[0], env[1], env[2], 7][i as usize]) }
+        }
+        Stmt::If(c, t, f) => {
+            if cond_val(c, env, 0)? { bin_val(t, env).map_err(|r| (r, 1)) } else { bin_val(f, env).map_err(|r| (r, 3)) }
+        }
+        Stmt::Match(x, e0, e1, e2) => match atom_val(x, env) % 3 {
+            0 => bin_val(e0, env).map_err(|r| (r, 1)),
+            1 => bin_val(e1, env).map_err(|r| (r, 2)),
+            _ => bin_val(e2, env).map_err(|r| (r, 3)),
+        },
+        Stmt::AndOr(and, c1, c2, t, f) => {
+            let l = cond_val(c1, env, 0)?;
+            let taken = if *and { l && cond_val(c2, env, 1)? } else { l || cond_val(c2, env, 1)? };
+            if taken { bin_val(t, env).map_err(|r| (r, 2)) } else { bin_val(f, env).map_err(|r| (r, 4)) }
+        }
+    }
+}
+
+fn rand_atom(rng: &mut Rng, nvars: usize) -> Atom {
+    if rng.below(5) == 0 { Atom::Lit([0u8, 1, 2, 3, 8, 100, 200, 255][rng.below(8)]) } else { Atom::Var(rng.below(nvars)) }
+}
+
+fn rand_bin(rng: &mut Rng, nvars: usize) -> Bin {
+    Bin { op: ["+", "-", "*", "/", "%", "<<", ">>", "+", "/"][rng.below(9)], x: rand_atom(rng, nvars), y: rand_atom(rng, nvars) }
+}
+
+fn rand_cond(rng: &mut Rng, nvars: usize) -> Cond {
+    let c = ["<", ">", "==", "!="][rng.below(4)];
+    if rng.below(2) == 0 { Cond::Cmp(rand_atom(rng, nvars), c, rand_atom(rng, nvars)) } else { Cond::OpCmp(rand_bin(rng, nvars), c, [0u8, 1, 44, 100, 200][rng.below(5)]) }
+}
+
+fn rand_stmt(rng: &mut Rng, nvars: usize) -> Stmt {
+    match rng.below(9) {
+        0..=2 => Stmt::Arith(rand_bin(rng, nvars)),
+        3 => Stmt::Index(rand_atom(rng, nvars)),
+        4 | 5 => Stmt::If(rand_cond(rng, nvars), rand_bin(rng, nvars), rand_bin(rng, nvars)),
+        6 => Stmt::Match(rand_atom(rng, nvars), rand_bin(rng, nvars), rand_bin(rng, nvars), rand_bin(rng, nvars)),
+        _ => Stmt::AndOr(rng.below(2) == 0, rand_cond(rng, nvars), rand_cond(rng, nvars), rand_bin(rng, nvars), rand_bin(rng, nvars)),
+    }
+}
+
+fn program_src(stmts: &[Stmt]) -> (String, Vec<usize>) {
+    let mut lines = vec!["pub fn main(a: u8, b: u8, c: u8) -> u8 {".to_string()];
+    let mut first_line = vec![];
+    for (k, s) in stmts.iter().enumerate() {
+        first_line.push(lines.len());
+        lines.extend(stmt_src(s, k));
+    }
+    let mut res = "    a ^ b ^ c".to_string();
+    for k in 0..stmts.len() {
+        res.push_str(&format!(" ^ v{k}"));
+    }
+    lines.push(res);
+    lines.push("}".to_string());
+    (lines.join("\n"), first_line)
+}
+
+fn u8_bits(v: u8) -> Vec<bool> {
+    (0..8).map(|i| (v >> (7 - i)) & 1 == 1).collect()
+}
+
+pub fn check_src(stmts: &[Stmt], inputs: &[(u8, u8, u8)]) -> Result<(), String> {
+    let (src, first_line) = program_src(stmts);
+    let prg = match garble_lang::compile(&src) {
+        Ok(p) => p,
+        Err(_) => return Ok(()), // e.g. a statically rejected program; not this property
+    };
+    for &(a, b, c) in inputs {
+        let mut env = vec![a, b, c];
+        let mut expected: Option<(u8, usize)> = None;
+        let mut acc = a ^ b ^ c;
+        for (k, s) in stmts.iter().enumerate() {
+            match stmt_val(s, &env) {
+                Ok(v) => {
+                    env.push(v);
+                    acc ^= v;
+                }
+                Err((r, off)) => {
+                    expected = Some((r, first_line[k] + off));
+                    break;
+                }
+            }
+        }
+        let out = prg.circuit.eval(&[u8_bits(a), u8_bits(b), u8_bits(c)]);
+        let has = out[0];
+        let reason = bits_to_usize(&out[1..33]);
+        let start_line = bits_to_usize(&out[33..65]);
+        match expected {
+            None => {
+                if has {
+                    return Err(format!("inputs ({a}, {b}, {c}): no operation fails, the circuit reports a panic (reason {reason}, line {start_line})\n{src}"));
+                }
+                let got = bits_to_usize(&out[161..]) as u8;
+                if got != acc {
+                    return Err(format!("inputs ({a}, {b}, {c}): result {got}, expected {acc}\n{src}"));
+                }
+            }
+            Some((r, line)) => {
+                if !has {
+                    return Err(format!("inputs ({a}, {b}, {c}): the operation on line {line} fails (reason {r}) but no panic is reported\n{src}"));
+                }
+                if reason != r as usize || start_line != line {
+                    return Err(format!("inputs ({a}, {b}, {c}): the first failing operation is on line {line} (reason {r}); the circuit reports reason {reason} on line {start_line}\n{src}"));
+                }
+            }
+        }
+    }
+    Ok(())
+}
+
+pub fn search_src(args: &[String], seed: u64, programs: u64) -> Option<String> {
+    let _ = args;
+    let mut rng = Rng(seed ^ 0xC025);
+    let vals = [0u8, 1, 2, 3, 4, 5, 7, 8, 9, 44, 100, 128, 200, 254, 255];
+    for _ in 0..programs {
+        let n = 1 + rng.below(4);
+        let stmts: Vec<Stmt> = (0..n).map(|k| rand_stmt(&mut rng, 3 + k)).collect();
+        let mut inputs = vec![];
+        for _ in 0..30 {
+            let mut pick = |rng: &mut Rng| if rng.below(4) == 0 { rng.next() as u8 } else { vals[rng.below(vals.len())] };
+            inputs.push((pick(&mut rng), pick(&mut rng), pick(&mut rng)));
+        }
+        if let Err(w) = check_src(&stmts, &inputs) {
+            return Some(w);
+        }
+    }
+    None
 }
